@@ -33,8 +33,9 @@ TARGETS = [
     dict(coq="src_push_integer", file="bitcoinutils/script.py", qual="Script._push_integer", params=[("integer", "int")],
          ret="bytes", fallback="fun n => of_option (Script.push_integer n)"),
     dict(coq="src_sequence_init", file="bitcoinutils/transactions.py", qual="Sequence.__init__",
-         params=[("seq_type", "int"), ("value", "int"), ("is_type_block", "bool")], ret="unit", init=True,
-         fallback="fun ty v blk => match Seq.mk_sequence ty v blk with Some _ => RetNone | None => Raise end"),
+         params=[("seq_type", "int"), ("value", "int"), ("is_type_block", "bool")], ret="attrs", init=True,
+         initattrs=[("seq_type", "int"), ("value", "int"), ("is_type_block", "bool")],
+         fallback="fun ty v blk => match Seq.mk_sequence ty v blk with Some s => Ok (Some (Seq.seq_type s), Some (Seq.seq_value s), Some (Seq.seq_is_block s)) | None => Raise end"),
     dict(coq="src_for_input_sequence", file="bitcoinutils/transactions.py", qual="Sequence.for_input_sequence", params=[],
          selfattrs=[("seq_type", "int"), ("value", "int"), ("is_type_block", "bool")], ret="bytes",
          fallback="fun ty v blk => match Seq.for_input_sequence (Seq.Build_sequence ty v blk) with Seq.SeqBytes b => Ok b | Seq.SeqNone => RetNone | Seq.SeqErr => Raise end"),
@@ -327,9 +328,22 @@ class Tr:
         self.env[pyname] = (ident, ty)
         return ident
 
+    def end_of_body(self):
+        """falling off the end (or a bare return): None -- for a constructor, the attributes the object now has"""
+        if not self.t.get("init"):
+            return "RetNone"
+        parts = []
+        for a, ty in self.t["initattrs"]:
+            if "self." + a in self.env:
+                if self.env["self." + a][1] != ty: raise Unsupported("attribute %s has type %s" % (a, self.env["self." + a][1]))
+                parts.append("Some %s" % self.env["self." + a][0])
+            else:
+                parts.append("None")
+        return "Ok (%s)" % ", ".join(parts)
+
     def stmts(self, ss):
         if not ss:
-            return "RetNone"
+            return self.end_of_body()
         s, rest = ss[0], ss[1:]
         if isinstance(s, ast.Expr) and isinstance(s.value, ast.Constant) and isinstance(s.value.value, str):
             return self.stmts(rest)                     # docstring
@@ -337,7 +351,7 @@ class Tr:
             return self.stmts(rest)
         if isinstance(s, ast.Return):
             if s.value is None or (isinstance(s.value, ast.Constant) and s.value.value is None):
-                return "RetNone"
+                return self.end_of_body()
             # tail call of a translated function: its result is this function's result
             if isinstance(s.value, ast.Call):
                 pre, a, ta = self.expr(s.value)
@@ -421,7 +435,8 @@ def translate(target, repo, consts, known):
         tr.env["self." + a] = ("self_" + a, ty)
         binders.append("(self_%s : %s)" % (a, COQTY[ty]))
     body = tr.stmts(list(fn.body))
-    return "Definition %s %s : res %s :=\n%s." % (target["coq"], " ".join(binders), COQTY[target["ret"]], body), defaults
+    rty = COQTY[target["ret"]] if target["ret"] != "attrs" else "(" + " * ".join("option " + COQTY[ty] for _, ty in target["initattrs"]) + ")"
+    return "Definition %s %s : res %s :=\n%s." % (target["coq"], " ".join(binders), rty, body), defaults
 
 
 def main():
